@@ -78,10 +78,10 @@ func runC06(args []string) {
 				}
 				for _, dc := range decs {
 					item := map[string]any{"op": "cuts", "pkg": t.Pkg.Name, "type": t.Def.Name, "hex": hex.EncodeToString(ev.B), "how": dc.how, "err": dc.err}
-				if len(ev.B) > 1500 && !r.Thorough() {
-					// long encodings: every offset near both ends, every 53rd in between (all in thorough)
-					item["step"] = 53
-				}
+					if len(ev.B) > 1500 && !r.Thorough() {
+						// long encodings: every offset near both ends, every 53rd in between (all in thorough)
+						item["step"] = 53
+					}
 					if dc.err == "ueof" {
 						// deliver the prefix, then io.ErrUnexpectedEOF instead of EOF
 						item["err"] = "ueof"
